@@ -130,6 +130,10 @@ def geometric_entanglement(
     """
     n_qubits = _to_qubits(len(state_vector))
     shape = tuple([2] * n_qubits)
+    state_vector = np.asarray(state_vector)
+    if not np.issubdtype(state_vector.dtype, np.inexact):
+        # an integer tensor would be decomposed in integer arithmetic
+        state_vector = state_vector.astype(float)
     tensor = tl.tensor(state_vector).reshape(shape)
     results = {}
     # The Tucker decomposition is actually a randomized algorithm.
